@@ -520,3 +520,60 @@ Definition run_both (case : Z * list col * list (Z * Z * Z * Z * Z)) : list Z :=
   let st0 := init (Z.to_nat n) cols in
   snd (run st0 ops) ++ [-5]
   ++ flat_map enc_ghost (rev (snd (spec_run st0 [mkghost [] []] ops))).
+
+(* ---- sibling children: two branches below shared ancestors ---------------- *)
+(* Two children (with their own descendants) of one parent share the parent
+   object and its filter.  The two chains are [sb_a ++ sb_anc] and
+   [sb_b ++ sb_anc]; every operation is the chain operation [step] applied to
+   one of them (tag + 10 addresses branch b); tag 7 moves branch a into the
+   shared part (only while branch b is empty), which places the fork. *)
+Record sib := mksib {
+  sb_a : list level; sb_b : list level; sb_anc : list level;
+  sb_ga : list ghost; sb_gb : list ghost; sb_ganc : list ghost;
+  sb_img : list Z
+}.
+
+Definition sib_step (s : sib) (op : Z * Z * Z * Z * Z) : sib * list Z :=
+  let '(tag, a, b, c, d) := op in
+  let br := tag / 10 in
+  let t := tag mod 10 in
+  if t =? 7 then
+    match sb_b s with
+    | [] => (mksib [] [] (sb_a s ++ sb_anc s) [] [] (sb_ga s ++ sb_ganc s)
+                   (sb_img s), [])
+    | _ => (s, [])
+    end
+  else
+    let X := if br =? 0 then sb_a s else sb_b s in
+    let gX := if br =? 0 then sb_ga s else sb_gb s in
+    let st := mkstate (X ++ sb_anc s) (sb_img s) in
+    let gs' := spec_step st (gX ++ sb_ganc s) (t, a, b, c, d) in
+    let '(st', out) := step st (t, a, b, c, d) in
+    let k := (length (s_levels st') - length (sb_anc s))%nat in
+    let X' := firstn k (s_levels st') in
+    let anc' := skipn k (s_levels st') in
+    let gX' := firstn k gs' in
+    let ganc' := skipn k gs' in
+    (if br =? 0
+     then mksib X' (sb_b s) anc' gX' (sb_gb s) ganc' (sb_img s)
+     else mksib (sb_a s) X' anc' (sb_ga s) gX' ganc' (sb_img s), out).
+
+Fixpoint sib_run (s : sib) (ops : list (Z * Z * Z * Z * Z)) : sib * list Z :=
+  match ops with
+  | [] => (s, [])
+  | o :: ops' =>
+      let '(s1, out1) := sib_step s o in
+      let '(s2, out2) := sib_run s1 ops' in
+      (s2, out1 ++ out2)
+  end.
+
+Definition sib_init (n : nat) (cols : list col) : sib :=
+  mksib [] [] [init_root n cols] [] [] [mkghost [] []]
+        (map (fun i => i + 3) (iota 0 n)).
+
+Definition run_sib (case : Z * list col * list (Z * Z * Z * Z * Z)) : list Z :=
+  let '(n, cols, ops) := case in
+  let '(s, out) := sib_run (sib_init (Z.to_nat n) cols) ops in
+  out ++ [-5]
+  ++ flat_map enc_ghost (rev (sb_ga s ++ sb_ganc s))
+  ++ [-6] ++ flat_map enc_ghost (rev (sb_gb s ++ sb_ganc s)).
